@@ -194,21 +194,21 @@ theorem readChainedSeqContext3_erase (b : Bytes) (pos : Nat) :
   rcases word_cases "fmt" b pos with ⟨f, _, hws⟩ | ⟨_, hws⟩
   · rw [hws]
     dsimp only
-    rcases readSlice_cases "nested.go:1359#ReadUint16Slice" b (pos + 2) Cost.zero with ⟨bo, h1, h1'⟩ | ⟨h1, h1'⟩
+    rcases readSlice_cases "nested.go:1378#ReadUint16Slice" b (pos + 2) Cost.zero with ⟨bo, h1, h1'⟩ | ⟨h1, h1'⟩
     · unfold W at h1'
       rw [h1, ok_bind, h1']
       dsimp only
-      rcases readSlice_cases "nested.go:1363#ReadUint16Slice" b (pos + 2 + 2 + 2 * bo.length) ⟨Cost.zero.steps + 1 + bo.length, Cost.zero.alloc + bo.length⟩ with ⟨io, h2, h2'⟩ | ⟨h2, h2'⟩
+      rcases readSlice_cases "nested.go:1382#ReadUint16Slice" b (pos + 2 + 2 + 2 * bo.length) ⟨Cost.zero.steps + 1 + bo.length, Cost.zero.alloc + bo.length⟩ with ⟨io, h2, h2'⟩ | ⟨h2, h2'⟩
       · unfold W at h2'
         rw [h2, ok_bind, h2']
         dsimp only
-        rcases readSlice_cases "nested.go:1367#ReadUint16Slice" b (pos + 2 + 2 + 2 * bo.length + 2 + 2 * io.length) ⟨Cost.zero.steps + 1 + bo.length + 1 + io.length, Cost.zero.alloc + bo.length + io.length⟩ with ⟨lo, h3, h3'⟩ | ⟨h3, h3'⟩
+        rcases readSlice_cases "nested.go:1386#ReadUint16Slice" b (pos + 2 + 2 + 2 * bo.length + 2 + 2 * io.length) ⟨Cost.zero.steps + 1 + bo.length + 1 + io.length, Cost.zero.alloc + bo.length + io.length⟩ with ⟨lo, h3, h3'⟩ | ⟨h3, h3'⟩
         · unfold W at h3'
           rw [h3, ok_bind, h3']
           dsimp only
           split
           · rfl
-          rcases word_cases "nested.go:1378#ReadUint16" b (pos + 2 + 2 + 2 * bo.length + 2 + 2 * io.length + 2 + 2 * lo.length) with ⟨slc, hs, hsw⟩ | ⟨hs, hsw⟩
+          rcases word_cases "nested.go:1397#ReadUint16" b (pos + 2 + 2 + 2 * bo.length + 2 + 2 * io.length + 2 + 2 * lo.length) with ⟨slc, hs, hsw⟩ | ⟨hs, hsw⟩
           · obtain ⟨_, hlt, _⟩ := readU16_ok hs
             rw [hs, ok_bind, hsw]
             dsimp only
@@ -221,9 +221,9 @@ theorem readChainedSeqContext3_erase (b : Bytes) (pos : Nat) :
               obtain ⟨_, _, hio, _, _⟩ := readSlice_ok h2
               obtain ⟨_, _, hlo, _, _⟩ := readSlice_ok h3
               rw [mkSlice_ok _ _ _ hbo, ok_bind]
-              have e1 := covSetsLoop_erase0 "nested.go:1389#backtrackCov[i]" b pos bo
+              have e1 := covSetsLoop_erase0 "nested.go:1408#backtrackCov[i]" b pos bo
                 (Cost.mem ⟨(Cost.tick ⟨Cost.zero.steps + 1 + bo.length + 1 + io.length + 1 + lo.length, Cost.zero.alloc + bo.length + io.length + lo.length⟩).steps + slc, (Cost.tick ⟨Cost.zero.steps + 1 + bo.length + 1 + io.length + 1 + lo.length, Cost.zero.alloc + bo.length + io.length + lo.length⟩).alloc + slc⟩ bo.length)
-              cases hr1 : covSetsLoop "nested.go:1389#backtrackCov[i]" b pos bo.length bo 0 [] _ with
+              cases hr1 : covSetsLoop "nested.go:1408#backtrackCov[i]" b pos bo.length bo 0 [] _ with
               | ok r1 =>
                 obtain ⟨cb, c5⟩ := r1
                 rw [hr1] at e1
@@ -231,8 +231,8 @@ theorem readChainedSeqContext3_erase (b : Bytes) (pos : Nat) :
                 rw [← e1, ok_bind]
                 dsimp only
                 rw [mkSlice_ok _ _ _ hio, ok_bind]
-                have e2 := covSetsLoop_erase0 "nested.go:1397#inputCov[i]" b pos io (c5.mem io.length)
-                cases hr2 : covSetsLoop "nested.go:1397#inputCov[i]" b pos io.length io 0 [] _ with
+                have e2 := covSetsLoop_erase0 "nested.go:1416#inputCov[i]" b pos io (c5.mem io.length)
+                cases hr2 : covSetsLoop "nested.go:1416#inputCov[i]" b pos io.length io 0 [] _ with
                 | ok r2 =>
                   obtain ⟨ci, c6⟩ := r2
                   rw [hr2] at e2
@@ -240,8 +240,8 @@ theorem readChainedSeqContext3_erase (b : Bytes) (pos : Nat) :
                   rw [← e2, ok_bind]
                   dsimp only
                   rw [mkSlice_ok _ _ _ hlo, ok_bind]
-                  have e3 := covSetsLoop_erase0 "nested.go:1405#lookaheadCov[i]" b pos lo (c6.mem lo.length)
-                  cases hr3 : covSetsLoop "nested.go:1405#lookaheadCov[i]" b pos lo.length lo 0 [] _ with
+                  have e3 := covSetsLoop_erase0 "nested.go:1424#lookaheadCov[i]" b pos lo (c6.mem lo.length)
+                  cases hr3 : covSetsLoop "nested.go:1424#lookaheadCov[i]" b pos lo.length lo 0 [] _ with
                   | ok r3 =>
                     obtain ⟨cl, c7⟩ := r3
                     rw [hr3] at e3
@@ -269,9 +269,9 @@ theorem readChainedSeqContext3_erase (b : Bytes) (pos : Nat) :
       rw [h1, h1']
       rfl
   · rw [hws]
-    have : (readSlice "nested.go:1359#ReadUint16Slice" b (pos + 2) Cost.zero) = .err "io" := by
+    have : (readSlice "nested.go:1378#ReadUint16Slice" b (pos + 2) Cost.zero) = .err "io" := by
       unfold readSlice
-      rcases word_cases ("nested.go:1359#ReadUint16Slice" ++ "#ReadUint16(count)") b (pos + 2) with ⟨n, hn, _⟩ | ⟨hn, _⟩
+      rcases word_cases ("nested.go:1378#ReadUint16Slice" ++ "#ReadUint16(count)") b (pos + 2) with ⟨n, hn, _⟩ | ⟨hn, _⟩
       · exfalso
         obtain ⟨_, _, hq⟩ := readU16_ok hn
         have hl := bytesToWords_length (b.drop pos)
@@ -290,11 +290,12 @@ theorem ctx_readCRule_drop (b : Bytes) (pos off : Nat) :
   rw [List.drop_drop]
 
 /-- a chained rule against the value-level `readCRule`: the same rule, or both fail with an I/O
-error (no other failure exists) -/
+error, or both refuse a zero input glyph count (no other failure exists) -/
 theorem readCRule_cases (S : RuleSites) (b : Bytes) (q : Nat) (c : Cost) :
     (∃ r c', readCRule S b q c = .ok (r, c') ∧ SfntV.Otl.Ctx.readCRule b q = .ok r) ∨
-    (readCRule S b q c = .err "io" ∧ SfntV.Otl.Ctx.readCRule b q = .err eIO) := by
-  unfold readCRule SfntV.Otl.Ctx.readCRule
+    (readCRule S b q c = .err "io" ∧ SfntV.Otl.Ctx.readCRule b q = .err eIO) ∨
+    (readCRule S b q c = .err "invalid" ∧ SfntV.Otl.Ctx.readCRule b q = .err eInvalid) := by
+  unfold readCRule readCRuleG SfntV.Otl.Ctx.readCRule
   rcases readSlice_cases S.back b q c with ⟨back, h1, h1'⟩ | ⟨h1, h1'⟩
   · unfold W at h1'
     rw [h1, ok_bind, h1']
@@ -303,10 +304,14 @@ theorem readCRule_cases (S : RuleSites) (b : Bytes) (q : Nat) (c : Cost) :
     · rw [hi, ok_bind, hiw]
       dsimp only
       obtain ⟨_, higc, _⟩ := readU16_ok hi
-      have hwrap : (if (igc == 0) = true then 65535 else igc - 1) = (igc + 65535) % 65536 := by
-        by_cases h0 : igc = 0
-        · subst h0; rfl
-        · rw [if_neg (by simpa using h0)]; omega
+      by_cases h0 : igc = 0
+      · subst h0
+        rw [if_pos ⟨rfl, rfl⟩]
+        exact Or.inr (Or.inr ⟨rfl, rfl⟩)
+      rw [if_neg (fun hh => h0 hh.2)]
+      have hb0 : (igc == 0) = false := by simpa using h0
+      simp only [hb0, Bool.false_eq_true, if_false]
+      have hwrap : igc - 1 = (igc + 65535) % 65536 := by omega
       rw [hwrap]
       have hm : (igc + 65535) % 65536 < 65536 := by omega
       revert hm
@@ -337,20 +342,20 @@ theorem readCRule_cases (S : RuleSites) (b : Bytes) (q : Nat) (c : Cost) :
               exact Or.inl ⟨_, _, rfl, rfl⟩
             · unfold W at h4'
               rw [h4, h4']
-              exact Or.inr ⟨rfl, rfl⟩
+              exact Or.inr (Or.inl ⟨rfl, rfl⟩)
           · rw [hs, hsw]
-            exact Or.inr ⟨rfl, rfl⟩
+            exact Or.inr (Or.inl ⟨rfl, rfl⟩)
         · unfold W at h3'
           rw [h3, h3']
-          exact Or.inr ⟨rfl, rfl⟩
+          exact Or.inr (Or.inl ⟨rfl, rfl⟩)
       · unfold W at hle
         rw [if_neg hle, if_neg hle]
-        exact Or.inr ⟨rfl, rfl⟩
+        exact Or.inr (Or.inl ⟨rfl, rfl⟩)
     · rw [hi, hiw]
-      exact Or.inr ⟨rfl, rfl⟩
+      exact Or.inr (Or.inl ⟨rfl, rfl⟩)
   · unfold W at h1'
     rw [h1, h1']
-    exact Or.inr ⟨rfl, rfl⟩
+    exact Or.inr (Or.inl ⟨rfl, rfl⟩)
 
 /-! ## format 2 -/
 
@@ -372,12 +377,14 @@ theorem rulesLoop2_erase (b : Bytes) (base n : Nat) : ∀ (os : List Nat) (j : N
   | o :: os, j, acc, c, hj => by
     unfold rulesLoop2 SfntV.Otl.Ctx.readRules
     simp only [List.length_cons] at hj
-    rcases readCRule_cases sites2 b (base + o) c.tick with ⟨r, c', h1, h2⟩ | ⟨h1, h2⟩
+    rcases readCRule_cases sites2 b (base + o) c.tick with ⟨r, c', h1, h2⟩ | ⟨h1, h2⟩ | ⟨h1, h2⟩
     · rw [h1, ok_bind, h2]
       dsimp only
       rw [chkIdx_ok _ _ _ (by omega), ok_bind, rulesLoop2_erase b base n os _ _ _ (by omega)]
       cases SfntV.Otl.Ctx.readRules SfntV.Otl.Ctx.readCRule b base os <;>
         simp [mapOk, List.reverse_cons, List.append_assoc]
+    · rw [h1, h2]
+      rfl
     · rw [h1, h2]
       rfl
 
@@ -403,7 +410,7 @@ theorem setsLoop2_erase (b : Bytes) (pos n : Nat) : ∀ (os : List Nat) (i : Nat
       simp only [hb]
       unfold SfntV.Otl.Ctx.readSet
       rw [List.drop_drop]
-      rcases readSlice_cases "nested.go:1050#ReadUint16Slice" b (pos + o) c.tick with ⟨offs, h1, h1'⟩ | ⟨h1, h1'⟩
+      rcases readSlice_cases "nested.go:1063#ReadUint16Slice" b (pos + o) c.tick with ⟨offs, h1, h1'⟩ | ⟨h1, h1'⟩
       · unfold W at h1'
         obtain ⟨_, _, hlt, _, _⟩ := readSlice_ok h1
         rw [h1, ok_bind, h1']
@@ -501,13 +508,13 @@ theorem readChainedSeqContext2_erase (b : Bytes) (pos : Nat) :
   unfold read2 SfntV.Otl.Ctx.readC2
   rcases word_cases "fmt" b pos with ⟨f, _, hws⟩ | ⟨_, hws⟩
   · rw [hws]
-    rcases rec8_cases "nested.go:1002#ReadBytes(8)" "nested.go:1006#buf[0],buf[1]" "nested.go:1007#buf[2],buf[3]"
-        "nested.go:1008#buf[4],buf[5]" "nested.go:1009#buf[6],buf[7]" b (pos + 2) with
+    rcases rec8_cases "nested.go:1015#ReadBytes(8)" "nested.go:1019#buf[0],buf[1]" "nested.go:1020#buf[2],buf[3]"
+        "nested.go:1021#buf[4],buf[5]" "nested.go:1022#buf[6],buf[7]" b (pos + 2) with
       ⟨buf, covOff, bOff, iOff, lOff, hb, h0, h1, h2, h3, hw8⟩ | ⟨hb, hshort⟩
     · rw [hb, ok_bind, h0, ok_bind, h1, ok_bind, h2, ok_bind, h3, ok_bind, hw8,
         show pos + 2 + 8 = pos + 10 by omega]
       dsimp only
-      rcases readSlice_cases "nested.go:1011#ReadUint16Slice" b (pos + 10) Cost.zero.tick with ⟨offs0, hs, hs'⟩ | ⟨hs, hs'⟩
+      rcases readSlice_cases "nested.go:1024#ReadUint16Slice" b (pos + 10) Cost.zero.tick with ⟨offs0, hs, hs'⟩ | ⟨hs, hs'⟩
       · unfold W at hs'
         obtain ⟨_, _, hlt, _, _⟩ := readSlice_ok hs
         rw [hs, ok_bind, hs']
@@ -575,7 +582,7 @@ theorem readChainedSeqContext2_erase (b : Bytes) (pos : Nat) :
     · rw [hb]
       rcases short4 hshort with h | ⟨a, h⟩ | ⟨a, a', h⟩ | ⟨a, a', a'', h⟩ <;> rw [h] <;> rfl
   · rw [hws]
-    have : readBytes "nested.go:1002#ReadBytes(8)" b (pos + 2) 8 = .err "io" := by
+    have : readBytes "nested.go:1015#ReadBytes(8)" b (pos + 2) 8 = .err "io" := by
       unfold readBytes
       have hl := bytesToWords_length (b.drop pos)
       rw [hws] at hl
@@ -611,7 +618,7 @@ theorem rulesLoop1_erase (b : Bytes) (pos o n : Nat) : ∀ (ros : List Nat) (j s
     unfold rulesLoop1 SfntV.Otl.Ctx.readSetsC1.go
     simp only [List.length_cons] at hj
     rw [ctx_readCRule_drop, ← Nat.add_assoc]
-    rcases readCRule_cases sites1 b (pos + o + ro) c.tick with ⟨r, c', h1, h2⟩ | ⟨h1, h2⟩
+    rcases readCRule_cases sites1 b (pos + o + ro) c.tick with ⟨r, c', h1, h2⟩ | ⟨h1, h2⟩ | ⟨h1, h2⟩
     · rw [h1, ok_bind, h2]
       dsimp only
       split
@@ -619,6 +626,8 @@ theorem rulesLoop1_erase (b : Bytes) (pos o n : Nat) : ∀ (ros : List Nat) (j s
       rw [chkIdx_ok _ _ _ (by omega), ok_bind, rulesLoop1_erase b pos o n ros _ _ _ _ (by omega)]
       cases SfntV.Otl.Ctx.readSetsC1.go (b.drop pos) o ros (size + SfntV.Otl.Ctx.cruleLen r) <;>
         simp [mapOk, List.reverse_cons, List.append_assoc]
+    · rw [h1, h2]
+      rfl
     · rw [h1, h2]
       rfl
 
@@ -648,7 +657,7 @@ theorem setsLoop1_erase (b : Bytes) (pos n : Nat) : ∀ (os : List Nat) (i total
       have hb : (o == 0) = false := by simpa using h0
       simp only [hb]
       rw [List.drop_drop]
-      rcases readSlice_cases "nested.go:714#ReadUint16Slice" b (pos + o) c.tick with ⟨offs, h1, h1'⟩ | ⟨h1, h1'⟩
+      rcases readSlice_cases "nested.go:718#ReadUint16Slice" b (pos + o) c.tick with ⟨offs, h1, h1'⟩ | ⟨h1, h1'⟩
       · unfold W at h1'
         obtain ⟨_, _, hlt, _, _⟩ := readSlice_ok h1
         rw [h1, ok_bind, h1']
@@ -720,10 +729,10 @@ theorem readChainedSeqContext1_erase (b : Bytes) (pos : Nat) :
   unfold read1 SfntV.Otl.Ctx.readC1
   rcases word_cases "fmt" b pos with ⟨f, _, hws⟩ | ⟨_, hws⟩
   · rw [hws]
-    rcases word_cases "nested.go:679#ReadUint16" b (pos + 2) with ⟨covOff, hc, hcw⟩ | ⟨hc, hcw⟩
+    rcases word_cases "nested.go:683#ReadUint16" b (pos + 2) with ⟨covOff, hc, hcw⟩ | ⟨hc, hcw⟩
     · rw [hc, ok_bind, hcw, show pos + 2 + 2 = pos + 4 by omega]
       dsimp only
-      rcases readSlice_cases "nested.go:683#ReadUint16Slice" b (pos + 4) Cost.zero.tick with ⟨offs0, hs, hs'⟩ | ⟨hs, hs'⟩
+      rcases readSlice_cases "nested.go:687#ReadUint16Slice" b (pos + 4) Cost.zero.tick with ⟨offs0, hs, hs'⟩ | ⟨hs, hs'⟩
       · unfold W at hs'
         obtain ⟨_, _, hlt, _, _⟩ := readSlice_ok hs
         rw [hs, ok_bind, hs']
@@ -774,8 +783,8 @@ theorem readChainedSeqContext1_erase (b : Bytes) (pos : Nat) :
     · rw [hc, hcw]
       rfl
   · rw [hws]
-    have : readU16 "nested.go:679#ReadUint16" b (pos + 2) = .err "io" := by
-      rcases word_cases "nested.go:679#ReadUint16" b (pos + 2) with ⟨n, hn, _⟩ | ⟨hn, _⟩
+    have : readU16 "nested.go:683#ReadUint16" b (pos + 2) = .err "io" := by
+      rcases word_cases "nested.go:683#ReadUint16" b (pos + 2) with ⟨n, hn, _⟩ | ⟨hn, _⟩
       · exfalso
         obtain ⟨_, _, hq⟩ := readU16_ok hn
         have hl := bytesToWords_length (b.drop pos)
